@@ -172,7 +172,7 @@ func main() {
 			}
 		}})
 	// histories: other library calls between creating a wallet and recovering it must not matter
-	interf := []string{"none", "verify-custom-w4-same-height", "verify-custom-w256-same-height", "key-other-height", "key-other-hash", "verify-other-key", "mnemonic-decode-other", "dilithium-sign-verify", "failed-recovery-attempt", "sign-and-advance-original"}
+	interf := []string{"none", "verify-custom-w4-same-height", "verify-custom-w256-same-height", "key-other-height", "key-other-hash", "verify-other-key", "mnemonic-decode-other", "dilithium-sign-verify", "failed-recovery-attempt", "sign-and-advance-original", "export-other-wallets-secrets"}
 	ck.Domains = append(ck.Domains, &drv.Domain{Name: "recovery-histories", Size: int64(len(interf)*len(interf)) * 3, Chunk: int64(len(interf)),
 		Desc: "h=4 wallet A created, then every ordered PAIR of interfering operations (custom-w verification at the same height, keys of other height / hash, other verifications, mnemonic decoding, Dilithium use, a failed recovery attempt, signing with A), then A recovered via extended seed, mnemonic and hex seed: same public key, state and signatures; 3 hash functions",
 		Run: func(c *drv.Ctx, lo, hi int64) {
@@ -211,6 +211,11 @@ func main() {
 							misc.MnemonicToExtendedSeedBin(mn0 + " zzz")
 						case "sign-and-advance-original":
 							a.Sign([]byte("advance"))
+						case "export-other-wallets-secrets":
+							o := xmss.NewXMSSFromSeed(seeds.Seed48(1, c.Seed), 4, xmss.HashFunction(hf), common.SHA256_2X)
+							_, _, _ = o.GetMnemonic(), o.GetHexSeed(), o.GetExtendedSeed()
+							d, _ := dilithium.NewDilithiumFromSeed(seeds.Seed48(2, c.Seed))
+							_, _ = d.GetMnemonic(), d.GetHexSeed()
 						}
 					})
 				}
@@ -253,12 +258,23 @@ func main() {
 					c.Fail(i, "dilithium-hexseed-is-not-0x-plus-seed", map[string]any{"observed": hs})
 				}
 				msg := []byte("c09 dilithium message")
+				// the original is a USED wallet: it has signed and sealed other messages before
+				d.Sign([]byte("earlier message one"))
+				d.Seal([]byte("earlier message two, longer ................................"))
 				s0, _ := d.Sign(msg)
+				mnHeld, hexHeld := d.GetMnemonic(), d.GetHexSeed()
+				// exporting another wallet's secrets in between must not disturb the strings already handed out
+				if od, err := dilithium.NewDilithiumFromSeed(seeds.Seed48(int(i)+20, c.Seed)); err == nil {
+					_, _ = od.GetMnemonic(), od.GetHexSeed()
+				}
+				if mnHeld != d.GetMnemonic() || hexHeld != hs {
+					c.Fail(i, "exported-secret-string-changed-after-later-export", map[string]any{"seed": hex.EncodeToString(seed[:])})
+				}
 				var others []*dilithium.Dilithium
 				var names []string
 				o := drv.Call(func() {
 					d1, e1 := dilithium.NewDilithiumFromHexSeed(strings.TrimPrefix(hs, "0x"))
-					d2, e2 := dilithium.NewDilithiumFromMnemonic(d.GetMnemonic())
+					d2, e2 := dilithium.NewDilithiumFromMnemonic(mnHeld)
 					d3, e3 := dilithium.NewDilithiumFromSeed(d.GetSeed())
 					if e1 != nil || e2 != nil || e3 != nil {
 						panic("constructor error")
